@@ -1,6 +1,7 @@
 package checks
 
 import (
+	"encoding/hex"
 	"bytes"
 	"encoding/binary"
 	"encoding/json"
@@ -26,6 +27,9 @@ type c07case struct {
 	raw func(member []byte) []byte     // edits the identity's JSON text before it is signed
 	// soundOnly: only "accepted => matches" is judged (a document with a member missing need not be accepted)
 	soundOnly bool
+	// sibling, when set, is an UNSIGNED member the response carries next to the signed one (name, before / after)
+	sibling       string
+	siblingBefore bool
 }
 
 func runC07(r *mc.Run) {
@@ -280,6 +284,42 @@ func runC07(r *mc.Run) {
 			qe[a], qe[b] = qe[b], qe[a]
 		}
 	}, nil)
+	// a signed identity that omits a member, next to an unsigned look-alike member (other capitalisation of the name,
+	// before or after the signed one) holding the complete, matching identity: what is not signed does not count
+	for _, om := range []struct {
+		name string
+		drop [][2]string // member name, nth occurrence as decimal
+	}{
+		{"level0.tcbStatus", [][2]string{{"tcbStatus", "0"}}}, {"level0.tcb", [][2]string{{"tcb", "0"}}}, {"attributes+mask", [][2]string{{"attributes", "0"}, {"attributesMask", "0"}}},
+		{"miscselect+mask", [][2]string{{"miscselect", "0"}, {"miscselectMask", "0"}}}, {"mrsigner", [][2]string{{"mrsigner", "0"}}}, {"isvprodid", [][2]string{{"isvprodid", "0"}}},
+		{"tcbLevels", nil}, {"nothing", [][2]string{}},
+	} {
+		om := om
+		for _, sib := range []string{"EnclaveIdentity", "ENCLAVEIDENTITY", "enclaveidentity", "enclaveIdentity"} {
+			for _, before := range []bool{true, false} {
+				if sib == "enclaveIdentity" && !before {
+					continue // an exact duplicate AFTER the signed member replaces it for every reader; C03's subject
+				}
+				edit := func(m []byte) []byte {
+					for _, d := range om.drop {
+						m = dropMember(d[0], int(d[1][0]-'0'), "")(m)
+					}
+					if om.name == "tcbLevels" {
+						m = regexp.MustCompile(`"tcbLevels":\[[^\]]*\],?`).ReplaceAll(m, nil)
+						m = bytes.ReplaceAll(m, []byte(",}"), []byte("}"))
+					}
+					return m
+				}
+				cases = append(cases, c07case{id: fmt.Sprintf("sibling/signed-without-%s/%s-%s", om.name, sib, map[bool]string{true: "before", false: "after"}[before]),
+					id2: func(e *world.EnclaveIdentity) {
+						if om.name == "level0.tcbStatus" || om.name == "level0.tcb" {
+							// the signed first level is the one that decides; it is not UpToDate / loses its SVN
+							e.TcbLevels = []world.Level{mkLevel(8, "OutOfDate"), mkLevel(7, "UpToDate")}
+						}
+					}, raw: edit, soundOnly: true, sibling: sib, siblingBefore: before})
+			}
+		}
+	}
 	// pairs of single-field deviations (wiring mistakes show up as a verdict that needs both)
 	singles := []c07case{}
 	for _, c := range cases {
@@ -336,6 +376,17 @@ func runC07(r *mc.Run) {
 		}
 		g := w.Getter.Clone()
 		g.Responses[world.URLQeIdentity] = world.Response{Header: w.QeHdr, Body: world.SignedBody("enclaveIdentity", member, w.PKI.TcbKey)}
+		if c.sibling != "" {
+			good := baseID
+			good.TcbLevels = []world.Level{mkLevel(8, "UpToDate")}
+			sibJSON := fmt.Sprintf("%q:%s", c.sibling, world.MustJSON(good))
+			signedJSON := fmt.Sprintf("%q:%s,%q:%q", "enclaveIdentity", member, "signature", hex.EncodeToString(w.PKI.TcbKey.SignRaw(member)))
+			body := "{" + signedJSON + "," + sibJSON + "}"
+			if c.siblingBefore {
+				body = "{" + sibJSON + "," + signedJSON + "}"
+			}
+			g.Responses[world.URLQeIdentity] = world.Response{Header: w.QeHdr, Body: []byte(body)}
+		}
 		o := w.Options(world.L1)
 		o.Getter = g
 		err := verifyRawBoth(r, c.id, raw, o)
